@@ -12,12 +12,13 @@ CONSTANTS RootCat,    \* category of the top-level list items
           Depth,      \* nesting budget
           Family,     \* "5" | "7": variants of the other family are excluded
           Allowed,    \* set of variant ids usable ({} = all)
-          Random      \* BOOLEAN: sample one successor per step (for -simulate)
+          Random,     \* BOOLEAN: sample one successor per step (for -simulate)
+          MaxChoices  \* bound on the size of a derivation (0 = none): prunes exhaustive enumeration to small programs
 
 VARIABLES todo, choices, done
 gvars == <<todo, choices, done>>
 
-Usable(v) == /\ Variants[v].fam \in {"both", Family}
+Usable(v) == /\ Variants[v].fam \in (IF Family = "7" THEN {"both", "7", "7g"} ELSE {"both", Family})
              /\ (Allowed = {} \/ Variants[v].id \in Allowed)
 
 \* pending child requests of a (kind, fill) in source order (= schema order), inline nodes expanded
@@ -64,6 +65,7 @@ Apply(h, v, lens) == LET d2 == IF h.d = 0 THEN 0 ELSE h.d - 1 IN
                      /\ todo' = Kids(VItems[v], lens, 1, 1, d2) \o Tail(todo)
 
 Expand == /\ todo # <<>> /\ ~done
+          /\ (MaxChoices = 0 \/ Len(choices) + Len(todo) <= MaxChoices)
           /\ LET h == Head(todo) IN
              IF Random
              THEN \E v \in {RandomElement(Cands(h))} :                     \* sampling (-simulate): one successor per step
